@@ -100,11 +100,18 @@ func (o *c02) State(c *core.Ctx) {
 	before := core.Digest(c.Rows)
 	api := c.Rig.NewAPI(core.APIOpts{})
 	hdr := map[string]string{"Authorization": "Bearer " + c.Rig.Cfg.HTTP.AuthToken}
-	for _, excess := range []int{0, 1, 6} {
+	// (the last excess value is "no limit" as an operator would write it: tip + excess passes MaxInt32)
+	for _, excess := range []int{0, 1, 6, 2147483647} {
 		c.Rig.Cfg.MerkleRoot.MaxBlockHeightExcess = excess
 		var items []mrItem
 		heights := []int32{-1, 2147483647}
-		for h := int32(0); h <= tip+int32(excess)+2; h++ {
+		top := tip + 8
+		if excess < 100 {
+			top = tip + int32(excess) + 2
+		} else {
+			heights = append(heights, 2147483646, 2147483647-tip, 2147483647-tip-1)
+		}
+		for h := int32(0); h <= top; h++ {
 			heights = append(heights, h)
 		}
 		for _, r := range roots {
